@@ -102,8 +102,8 @@ def libyang(config="asan", verbose=False):
                 continue  # stale mtimes: rebuild from scratch
             break
         json.dump({"hash": th, "files": man}, open(stamp, "w"))
-        # harness binaries are per tree state
-        shutil.rmtree(os.path.join(bdir, "hbin"), ignore_errors=True)
+        # harness binaries are per tree state (the tree hash is part of their name); stale ones are removed by age in harness(),
+        # not here: a check still running against the previous tree state may be about to exec one
         return bdir, th
 
 
@@ -131,7 +131,9 @@ def harness(name, config="asan", extra=None):
         os.makedirs(hb, exist_ok=True)
         for old in os.listdir(hb):
             if old.startswith(name + "-"):
-                try: os.unlink(os.path.join(hb, old))
+                try:
+                    if time.time() - os.path.getmtime(os.path.join(hb, old)) > 5400:
+                        os.unlink(os.path.join(hb, old))
                 except OSError: pass
         cmd = (["clang-14"] + cflags(config).split() + ["-Wno-everything", "-D_GNU_SOURCE", "-DNDEBUG"]
                + include_flags(bdir) + [src, os.path.join(bdir, "libyang.a")] + (extra or [])
